@@ -171,19 +171,17 @@ Fixpoint remove_first (x : pystr) (l : list pystr) : list pystr :=
   end.
 
 (* the walk of schema_to_struct_code over the properties: a property with a default is taken out
-   of the (caller's) required list; without a required list the membership test raises TypeError *)
+   of the (caller's) required list; without a required list there is nothing to take it out of
+   (`"default" in sch and required is not None and name in required`).  The outer option is the
+   generator's "raises" channel; this walk never uses it. *)
 Fixpoint final_required (req : option (list pystr)) (props : list (pystr * jfield))
   : option (option (list pystr)) :=
   match props with
   | [] => Some req
   | (name, f) :: rest =>
-      match field_default f with
-      | None => final_required req rest
-      | Some _ =>
-          match req with
-          | None => None                                  (* TypeError: argument of type NoneType *)
-          | Some r => final_required (Some (if str_in name r then remove_first name r else r)) rest
-          end
+      match field_default f, req with
+      | Some _, Some r => final_required (Some (if str_in name r then remove_first name r else r)) rest
+      | _, _ => final_required req rest
       end
   end.
 
